@@ -1,5 +1,6 @@
 /- Driver for the GCPMultiEndpoint model (C15, C16). -/
 import GcpVerif.Model.GME
+import GcpVerif.Model.Monitor
 import GcpVerif.Driver.Common
 import GcpVerif.Driver.ME
 namespace GcpVerif.Driver.GmeDrv
@@ -118,6 +119,21 @@ def expectedPool (dg : String) (histNames : List String) (histDefault : String) 
   | some cur => some cur
   | none => byName histDefault
 
+/-- the monitor model run over the history of the `livemon` scenario: the monitor told the
+    MultiEndpoints READY (1) and sleeps; while it is stuck in `notify` (the update holds the lock) the
+    connectivity flips; afterwards it runs until it blocks.  Returns what the MultiEndpoints were told. -/
+def liveMonTold (flips : Nat) (final : Nat) : Option Nat :=
+  let s0 := Monitor.run (Monitor.init 1) [.mon, .mon]
+  -- the i-th flip leaves the pool not ready (0) / ready (1) alternately; the last one is what the harness read
+  let envs : List Monitor.Step := (List.range flips).map fun i => .env (if i + 1 == flips then final else (i % 2))
+  -- the monitor wakes after the first flip, reads, and is stuck in notify during the others
+  let hist : List Monitor.Step := match envs with
+    | [] => []
+    | e :: es => e :: .mon :: es
+  let s1 := Monitor.run s0 hist
+  let s2 := Monitor.run s1 (List.replicate 8 .mon)
+  if Monitor.blocked s2 then s2.told else none
+
 def handle (sess : Sess) (rep : Report) (ln : Nat) (toks : List String) (obs : String) : Sess × Report :=
   let a := args toks.tail
   let op := toks.headD ""
@@ -160,6 +176,24 @@ def handle (sess : Sess) (rep : Report) (ln : Nat) (toks : List String) (obs : S
   let diverge (mine : String) : Sess × Report :=
     ({ sess with model := none }, { rep.msg s!"DIVERGE line={ln} model={mine} impl={obs}" with diverged := rep.diverged + 1 })
   match op with
+  | "livemon" =>
+    -- a self-contained scenario on a pool with real connectivity and the real monitor goroutine
+    let sess := { sess with model := none, lastImpl := "", ready := [] }
+    let rep := { rep with episodes := rep.episodes + 1 }
+    let final := arg a "final"
+    if final != "READY" && final != "NOTREADY" then
+      -- the environment did not cooperate (no connectivity in time): nothing to compare
+      (sess, if obs == "PANIC" then rep else if obs == "HANG" then fail rep ln "C15" "update_returns" else rep.bump "gme.livemon_inconclusive")
+    else
+      let fl := (arg a "flips").toNat?.getD 0
+      let rep := rep.bump s!"gme.livemon_flips_{fl}_{final}"
+      let mine := match liveMonTold fl (if final == "READY" then 1 else 0) with
+        | some 1 => "told=A"
+        | some _ => "told=U"
+        | none => "told=?"
+      -- monitor (theorem blocked_means_told): once quiet, the MultiEndpoints were told the current state
+      let rep := if obs != (if final == "READY" then "told=A" else "told=U") then fail rep ln "C15" "blocked_means_told" else rep
+      if mine == obs then (sess, rep) else ({ sess with model := none }, { rep.msg s!"DIVERGE line={ln} model={mine} impl={obs}" with diverged := rep.diverged + 1 })
   | "new" | "upd" =>
     let rep := if op == "new" then { rep with episodes := rep.episodes + 1 } else rep
     let base : Option St := if op == "new" then some init else sess.model
